@@ -926,7 +926,7 @@ func (x *Exec) havocConst(prefix, sort string) Term {
 
 func (x *Exec) havocHeapAll(st *State) {
 	for _, c := range x.compOrder {
-		if strings.HasPrefix(c, "G_const_") || strings.HasPrefix(c, "Ghost_last") || strings.HasPrefix(c, "Ghost_calls_") || strings.HasPrefix(c, "Ghost_ret_") {
+		if strings.HasPrefix(c, "G_const_") || strings.HasPrefix(c, "Ghost_last") || strings.HasPrefix(c, "Ghost_calls_") || strings.HasPrefix(c, "Ghost_ret_") || strings.HasPrefix(c, "Ghost_atom_") {
 			continue
 		}
 		st.heap[c] = x.havocConst(c, x.comps[c])
